@@ -77,6 +77,12 @@ impl<'a> TXT<'a> {
                 None => continue,
             };
 
+            // An empty TXT record is written as a single zero length string, which is not an
+            // attribute, and strings without a key are ignored (RFC 6763 6.1 and 6.4)
+            if key.is_empty() {
+                continue;
+            }
+
             let value = match splited.next() {
                 Some(value) if !value.is_empty() => match std::str::from_utf8(value) {
                     Ok(v) => Some(v.to_owned()),
